@@ -218,6 +218,10 @@ class RestoreHolder(Contract):
         ps, vals, w2 = a["__ps"], a["__vals"], a["__w2"]
         res = [("one-array-restored-per-period-held", len(puts) == len(ps)),
                ("restored-into-the-variable's-holder", all(p["args"]["self"] is w2.holder for p in puts))]
+        # a storage object opened on the dump is discarded when the restore returns; its finaliser (OnDiskStorage.__del__) removes
+        # the directory unless the storage was told to preserve it: the dump must survive being restored
+        opened = [o for o in ctx.ghost.get("created", []) if o.cls.name == "OnDiskStorage"]
+        res.append(("storages-opened-on-the-dump-preserve-its-files", bool(opened) and all(o.fields.get("preserve_storage_dir") is True for o in opened[-1:])))
         for p, v in zip(ps, vals):
             hits = []
             for e in puts:
